@@ -8,10 +8,17 @@ invariants, and prints the exact state at every event date. The driver builds th
 ProfileBuilder::from_string), a sampler actor logs get_speed / get_available_speed / is_on / get_bandwidth /
 get_latency just before and at every change date, and every activity logs its finish date. Python compares.
 
-Known deviation (KNOWN_FINDINGS.jsonl, signature C22:bandwidth-increase:running-comm): NetworkCm02Model bounds the rate
-of a communication by the smallest bandwidth its route had when it started (comm_action_set_bounds ->
-set_user_bound), so a communication that is running when a bandwidth profile *raises* the bandwidth keeps its old rate.
-Such scenarios must match the variant Timeline!CapComm of the reference exactly, anything else is a violation.
+Known deviations (KNOWN_FINDINGS.jsonl); a scenario that does not meet the reference is re-evaluated by TLC under the
+variants of Timeline.tla that characterise them (alone and combined) and must then match one of them *exactly*,
+anything else is a violation:
+  C22:bandwidth-increase  NetworkCm02Model bounds the rate of a communication by the smallest bandwidth its route had
+                          when it started (comm_action_set_bounds -> set_user_bound): a communication running when a
+                          bandwidth profile raises the bandwidth keeps its old rate          (variant Timeline!CapComm)
+  C22:latency-event       NetworkCm02Link::set_latency re-enables the LMM variable of a communication that is still
+                          paying its latency: a latency point inside the latency phase ends it (variant Timeline!EarlyWake)
+  C22:date-0              on a platform built through the C++ API nothing applies the profile points of date 0 before
+                          the actors start (the XML loader fires on_platform_created for that): at date 0 the
+                          application still sees the initial values                           (variant Timeline!Early)
 
 Mutations tried (tools/mutbuild.sh, quick tier):
   see the end of this docstring (filled in after the experiments)
@@ -28,7 +35,7 @@ NETCFG = ["--cfg=network/model:CM02", "--cfg=network/TCP-gamma:0", "--cfg=networ
 G = F(1, 16)          # date grid
 
 
-def gen_profile(rng, values, init, horizon, max_pts=20):
+def gen_profile(rng, values, init, horizon, max_pts=20, dup=True):
     """random profile: up to max_pts points on the grid inside one iteration, optionally periodic"""
     periodic = rng.random() < 0.6
     span = rng.choice([2, 3, 4, 6, 8]) if periodic else horizon
@@ -40,7 +47,8 @@ def gen_profile(rng, values, init, horizon, max_pts=20):
         v = rng.choice([x for x in values if x != last] or values)
         pts.append((t * G, v))
         last = v
-    if rng.random() < 0.1 and pts:          # two points at the same date: the last one wins
+    if dup and rng.random() < 0.1 and pts:   # two points at the same date: the last one wins (not for state profiles:
+                                             # whether a zero-length outage kills what is running is left open)
         pts.append((pts[-1][0], rng.choice(values)))
     return S.profile(pts, period=span if periodic else 0, init=init)
 
@@ -64,21 +72,21 @@ def change_dates(p, horizon):
 
 
 def gen_scenario(rng, quick):
-    horizon = F(rng.choice([8, 12, 16]))
+    horizon = F(rng.choice([6, 8, 10]))
     nh = rng.randint(1, 2)
     nl = rng.randint(1, 2)
     hosts, links = [], []
     for _ in range(nh):
         speed = F(rng.choice([1, 2, 4, 8]))
         sprof = gen_profile(rng, [F(1, 4), F(1, 2), F(3, 4), F(1), F(1, 8)], F(1), horizon) if rng.random() < 0.8 else None
-        stprof = gen_profile(rng, [F(0), F(1)], F(1), horizon, max_pts=4) if rng.random() < 0.3 else None
+        stprof = gen_profile(rng, [F(0), F(1)], F(1), horizon, max_pts=4, dup=False) if rng.random() < 0.3 else None
         hosts.append(S.new_host([speed], cores=rng.choice([1, 1, 2, 4]), sprof=sprof, stprof=stprof))
     for _ in range(nl):
         bw = F(rng.choice([2, 4, 8, 16]))
         lat = F(rng.choice([0, 0, 1, 2, 4]), 32)
         bwprof = gen_profile(rng, [F(2), F(4), F(8), F(16), F(3), F(6), F(12)], bw, horizon) if rng.random() < 0.8 else None
         latprof = gen_profile(rng, [F(1, 32), F(1, 16), F(1, 8), F(3, 16)], lat, horizon, max_pts=5) if rng.random() < 0.4 else None
-        stprof = gen_profile(rng, [F(0), F(1)], F(1), horizon, max_pts=3) if rng.random() < 0.25 else None
+        stprof = gen_profile(rng, [F(0), F(1)], F(1), horizon, max_pts=3, dup=False) if rng.random() < 0.25 else None
         links.append(S.new_link(bw, lat, bwprof=bwprof, latprof=latprof, stprof=stprof))
     acts = []
     for _ in range(rng.randint(1, 4)):
@@ -104,9 +112,14 @@ def gen_scenario(rng, quick):
             if d >= G / 2:
                 samples.add(d - G / 2)
     samples = sorted(samples)
-    if len(samples) > 48:
-        samples = sorted(rng.sample(samples, 48))
+    if len(samples) > 30:
+        samples = sorted(rng.sample(samples, 30))
     return S.new_scen(hosts, links, [], acts, [], samples + [horizon + 1])
+
+
+def has_date0_point(sc):
+    profs = [h[k] for h in sc["hosts"] for k in ("sprof", "stprof")] + [l[k] for l in sc["links"] for k in ("bwprof", "latprof", "stprof")]
+    return any(p and p["pts"] and p["pts"][0][0] == 0 for p in profs)
 
 
 def involves_comm_speedup(sc):
@@ -130,7 +143,7 @@ def mismatches(sc, obs, fin, recs):
 
 
 def run(ctx):
-    n = 100 if ctx.quick else 2000
+    n = 40 if ctx.quick else 1500
     import os
     if os.environ.get("SURF_DEV_N"):
         n = int(os.environ["SURF_DEV_N"])
@@ -171,22 +184,25 @@ def run(ctx):
         else:
             ctx.cov["unconfirmed_mismatches"] = ctx.cov.get("unconfirmed_mismatches", 0) + 1
     # variants of the reference that characterise the two recorded deviations (never the property itself)
-    VARIANTS = [("C22:bandwidth-increase:running-comm", {"capcomm": True},
-                 "a running communication does not follow a bandwidth increase"),
-                ("C22:latency-event:during-latency-phase", {"latwake": True},
-                 "a latency profile point inside the latency phase of a communication ends that phase at once"),
-                ("C22:bandwidth-increase+latency-event", {"capcomm": True, "latwake": True},
-                 "a running communication does not follow a bandwidth increase, and a latency profile point ends its latency phase")]
+    COMPONENTS = [("bandwidth-increase", "capcomm", "a running communication does not follow a bandwidth increase"),
+                  ("latency-event", "latwake", "a latency profile point inside the latency phase of a communication ends that phase at once"),
+                  ("date-0", "zerolate", "profile points of date 0 are not in effect at date 0 (platform built through the C++ API)")]
+    VARIANTS = []
+    for mask in sorted(range(1, 8), key=lambda m: bin(m).count("1")):
+        comps = [c for b, c in enumerate(COMPONENTS) if mask >> b & 1]
+        VARIANTS.append(("C22:" + "+".join(c[0] for c in comps), {c[1]: True for c in comps}, "; ".join(c[2] for c in comps)))
     todo = []
     for ci, (k, i, bad, recs2) in enumerate(confirmed):
         sc = scens[i]
         comm = any(a["kind"] == "comm" for a in sc["acts"])
         for vi, (sig, flags, _) in enumerate(VARIANTS):
-            if not comm:
+            if not comm and ("capcomm" in flags or "latwake" in flags):
                 continue
             if "capcomm" in flags and not any(l["bwprof"] for l in sc["links"]):
                 continue
             if "latwake" in flags and not any(l["latprof"] for l in sc["links"]):
+                continue
+            if "zerolate" in flags and not has_date0_point(sc):
                 continue
             v = dict(sc)
             v.update(flags)
@@ -211,6 +227,19 @@ def run(ctx):
                 if not bad_alt:
                     matched = (sig, text)
                     break
+        if not matched and "--cfg=network/optim:Lazy" in jobs[k][1]:
+            # With the lazy update algorithm the same defect (a latency point re-enables a flow that is still paying its
+            # latency) has another symptom: the progress made between the end of the latency phase and the next change is
+            # dropped.  The variants model the Full algorithm; the defect is attributed only if the *same scenario* run with
+            # network/optim:Full matches a latency-event variant exactly (which proves that a latency point hit a latency phase).
+            cfg_full = [c.replace("network/optim:Lazy", "network/optim:Full") for c in jobs[k][1]]
+            recs_full = S.run_scenario(ctx, 2 * 10 ** 6 + i, jobs[k][0], cfg_full)
+            for vi, (sig, flags, text) in enumerate(VARIANTS):
+                if "latwake" in flags and (ci, vi) in alt:
+                    bad_alt, _ = mismatches(sc, alt[(ci, vi)][0], alt[(ci, vi)][1], recs_full)
+                    if not bad_alt:
+                        matched = (sig + "+lazy", text + " (lazy update: the progress made before the next change is dropped)")
+                        break
         if matched:
             nknown += 1
             ctx.violation(matched[1] + ": " + bad[0], files=files, signature=matched[0],
